@@ -452,6 +452,7 @@ func TestC25(t *testing.T) {
 				b, _ := json.Marshal(c)
 				st.NonTrivial(string(b), c)
 			}
+			st.SkipShrink(rt, c)
 			st.Report(rt, runC25(c), c)
 		})
 	})
